@@ -1,6 +1,7 @@
 #!/usr/bin/env python3
-"""tools/harmless.py [name ...] — apply each behaviour-preserving rewrite under harmless/<name>/patch.diff to /repo,
-run the test suite and EVERY quick check, undo the patch, and record the outcome in harmless/<name>/meta.json.
+"""tools/harmless.py [name ...] — apply each behaviour-preserving rewrite under harmless/<name>/patch.diff to a scratch
+worktree of /repo (outside /repo and /verif; the checks read it through SA_REPO),
+run the test suite and EVERY quick check, remove the worktree, and record the outcome in harmless/<name>/meta.json.
 A VIOLATION here is a false alarm of the machinery (or, with no-failing-input-found, a broken correspondence that the
 interface allows but that we want to know about)."""
 import json, subprocess, sys, time
@@ -16,19 +17,21 @@ names = sys.argv[1:] or sorted(d.name for d in (VERIF / "harmless").iterdir() if
 ids = [c["property_id"] for c in json.load(open(VERIF / "MANIFEST.json"))["checks"]]
 for name in names:
     d = VERIF / "harmless" / name
-    rc, out = sh("git status --porcelain", cwd=REPO); assert out.strip() == "", out
-    rc, out = sh(f"git apply {d/'patch.diff'}", cwd=REPO); assert rc == 0, out
+    wt = Path(f"/tmp/harmless_{name}")
+    sh(f"git -C {REPO} worktree remove --force {wt}")
+    rc, out = sh(f"git -C {REPO} worktree add -q --detach {wt} HEAD"); assert rc == 0, out
+    rc, out = sh(f"git apply {d/'patch.diff'}", cwd=wt); assert rc == 0, out
     res = {}
     try:
-        rc, out = sh("/venv/bin/python -m pytest -q -p no:cacheprovider tests 2>&1 | tail -1", cwd=REPO)
+        rc, out = sh("/venv/bin/python -m pytest -q -p no:cacheprovider tests 2>&1 | tail -1", cwd=wt)
         suite = out.strip()
         for pid in ids:
-            rc, out = sh(f"./check {pid} --tier quick", cwd=VERIF)
+            rc, out = sh(f"SA_REPO={wt} ./check {pid} --tier quick", cwd=VERIF)
             v = [l for l in out.splitlines() if l.startswith("VIOLATION")]
             res[pid] = "ok" if rc == 0 else ("VIOLATION no-failing-input-found" if v and "no-failing-input-found" in v[0]
                                               else "VIOLATION" if v else f"exit {rc}")
     finally:
-        sh("git checkout -- .", cwd=REPO)
+        sh(f"git -C {REPO} worktree remove --force {wt}")
     meta = {"suite": suite, "checks": res, "at": time.strftime("%Y-%m-%dT%H:%M:%SZ", time.gmtime())}
     (d / "meta.json").write_text(json.dumps(meta, indent=1))
     bad = {k: v for k, v in res.items() if v != "ok"}
